@@ -569,6 +569,84 @@ def design_record(vc, case):
     return rec
 
 
+def depconst_records(vc, case):
+    """plot_dependence_functions for a model with dependence functions that are constant in the
+    conditioning value and return a scalar / 0-d array / 1-element array: the drawn line is
+    np.full(len(x), value); varying functions and interval estimates as for every other model."""
+    import matplotlib.pyplot as plt
+    from matplotlib.collections import PathCollection
+    from virocon import plotting
+    ret, which, fitted = case["returns"], case["constant"], bool(case["fitted"])
+    tag = f"returns={ret} constant={which} fitted={fitted}"
+    wrap = {"scalar": lambda a: a, "zerod": lambda a: np.array(a), "one": lambda a: np.array([a])}[ret]
+
+    def _linear(x, a=1.0, b=0.3):
+        return a + b * x
+
+    def _exp3(x, a=0.1, b=0.4, c=-0.5):
+        return a + b * np.exp(c * x)
+
+    def _const_mu(x, a=1.4):
+        return wrap(a)
+
+    def _const_sigma(x, a=0.25):
+        return wrap(a)
+
+    def _vec_mu(x, a=1.4):
+        return a + 0.0 * x
+
+    def _vec_sigma(x, a=0.25):
+        return a + 0.0 * x
+
+    def build(vectorised=False):
+        mu = _linear if which == "sigma" else (_vec_mu if vectorised else _const_mu)
+        sg = _exp3 if which == "mu" else (_vec_sigma if vectorised else _const_sigma)
+        return vc.GlobalHierarchicalModel([
+            {"distribution": vc.WeibullDistribution(alpha=2.0, beta=1.5, gamma=0.0)},
+            {"distribution": vc.LogNormalDistribution(), "conditional_on": 0,
+             "parameters": {"mu": vc.DependenceFunction(mu), "sigma": vc.DependenceFunction(sg, bounds=[(0.01, None)] + [(None, None)] * (2 if which == "mu" else 0))}}])
+    recs = []
+    bad = lambda clause, e: recs.append(dict(kind="arrays", clause=clause, got=[], want=[], tol=0,
+                                             exc=f"{type(e).__name__}: {e}"[:160], label=f"constdep {tag} {clause}"))
+    with warnings.catch_warnings():
+        warnings.simplefilter("ignore")
+        model = build()
+        if fitted:
+            try:
+                data = build(vectorised=True).draw_sample(3000, random_state=case["seed"] + 1)
+                model.fit(data)
+            except Exception:  # noqa  (fitting such a model is not what is judged here)
+                return []
+        try:
+            axes = plotting.plot_dependence_functions(model)
+        except Exception as e:  # noqa
+            bad("DependenceFunctions.constant_function_drawn", e)
+            plt.close("all")
+            return recs
+        try:
+            dist = model.distributions[1]
+            cv = dist.conditioning_values
+            x = np.linspace(0, max(cv)) if cv is not None else np.linspace(0, 10)
+            for k, (par, dep) in enumerate(dist.conditional_parameters.items()):
+                ax = axes[k]
+                xy = ax.lines[0].get_xydata()
+                const = which == "all" or which == par
+                want_y = np.full(len(x), float(dep.parameters["a"])) if const else dep(x)
+                for clause, got, want in ((f"DependenceFunctions.curve_x[{par}]", xy[:, 0], x),
+                                          (f"DependenceFunctions.{'constant_' if const else ''}curve_y[{par}]", xy[:, 1], want_y)):
+                    r = arr_rec(clause, got, want, 1e6, 0, f"constdep {tag} {clause}")
+                    recs.append(r)
+                if cv is not None:
+                    sc = [np.asarray(c.get_offsets()) for c in ax.collections if isinstance(c, PathCollection)]
+                    est = np.c_[cv, [p[par] for p in dist.parameters_per_interval]]
+                    recs.append(arr_rec(f"DependenceFunctions.interval_estimates[{par}]", sc[0] if sc else [], est, 1e6, 0,
+                                        f"constdep {tag} DependenceFunctions.interval_estimates[{par}]"))
+        except Exception as e:  # noqa
+            bad("DependenceFunctions.constant_function_drawn", e)
+        plt.close("all")
+    return recs
+
+
 def key_of(case):
     if case["fn"] == "save":
         return (f"save contour={case.get('obj', 'standin')} npts={case['npts']} ndim={case['ndim']} sem={case['sem']} "
@@ -708,7 +786,9 @@ def run(ctx):
                 "seeded coordinates incl. rounding ties, negative zero, 7+ decimals (quick 1, thorough 6 data seeds); "
                 "plus read_ec_benchmark_dataset on synthetic files (1..1e4 rows, hourly/gaps/unordered, 2-3 columns; fresh "
                 "paths and ONE path rewritten with different datasets and re-read after every rewrite) and "
-                "the four other plot functions on fitted predefined models. distinct = distinct call; non-trivial = the "
+                "the four other plot functions on fitted predefined models; plot_dependence_functions also on models whose "
+                "dependence functions are constant and return a scalar / 0-d array / 1-element array (one constant, all "
+                "constant; fitted and unfitted). distinct = distinct call; non-trivial = the "
                 "call returned")
     ctx.trusted = ["TLC 1.8 evaluating spec/ExportOps.tla, spec/Trace_C20.tla",
                    "harness/c20.py: exact decimal rounding (decimal.Decimal) of the doubles, UTF-8 decoding of the file, "
@@ -729,8 +809,13 @@ def run(ctx):
     for rep in range(ctx.pick(1, 6)):
         for i, g in enumerate(gen):
             cases.append(dict(g, idx=i, seed=ctx.seed * 100 + rep))
+    depcases = [c for c in cases if c["fn"] == "depconst"]
+    cases = [c for c in cases if c["fn"] != "depconst"]
     cases += list(dataset_cases(ctx))
     extra = []
+    for c in depcases:
+        extra += depconst_records(vc, c)
+    ctx.notes["constant_dependence_function_plots"] = len(depcases)
     for name, model, data, sem in fitted_models(vc, ctx):
         extra += other_plots(vc, ctx, name, model, data, sem)
     recs = judge(ctx, vc, cases, extra, "configuration cases + other plot functions", selftest=True)
@@ -750,7 +835,11 @@ def replay(ctx, case):
     import matplotlib
     matplotlib.use("Agg")
     c = case["case"]
-    if c["fn"] == "arrays":
+    if c["fn"] == "arrays" and c["label"].startswith("constdep "):
+        m = re.match(r"constdep returns=(\w+) constant=(\w+) fitted=(\w+) ", c["label"])
+        sub = dict(fn="depconst", returns=m.group(1), constant=m.group(2), fitted=m.group(3) == "True", seed=ctx.seed, idx=0)
+        judge(ctx, vc, [], [r for r in depconst_records(vc, sub) if r.get("label") == c["label"]], "replay")
+    elif c["fn"] == "arrays":
         extra = []
         for name, model, data, sem in fitted_models(vc, ctx):
             extra += [r for r in other_plots(vc, ctx, name, model, data, sem) if r.get("label") == c["label"]]
